@@ -141,6 +141,55 @@ func runChild(cfg hx.Config) error {
 		controlledEnrich(r, rnd, sc, lim, i%4 == 3)
 	}
 	r.Notes["controlled_schedules_enrichment"] = nenrich
+	// Match under controlled schedules (machine MatchFan); every fifth run
+	// cancels the caller's Context at a random step
+	nfan := cfg.N(2500, 25000)
+	for i := 0; i < nfan && !r.Stop() && !tooManyHangs() && !tooManyStucks(); i++ {
+		sc := fanScenario(rnd, r.Count)
+		lim := 1 + rnd.Intn(4)
+		if rnd.Chance(1, 4) {
+			lim = 5 + rnd.Intn(12)
+		}
+		cancelAt := -1
+		if i%5 == 4 {
+			cancelAt = rnd.Intn(40)
+		}
+		controlledMatch(r, rnd, sc, lim, cancelAt)
+	}
+	r.Notes["controlled_schedules_match"] = nfan
+	// the caller's cancellation swept over every step of one seeded schedule,
+	// matching phase and enrichment phase
+	nsweep := cfg.N(30, 300)
+	swept := 0
+	for i := 0; i < nsweep && !r.Stop() && !tooManyHangs() && !tooManyStucks(); i++ {
+		sc := protoScenario(rnd, func(string) {})
+		if len(sc.matchers) > 5 {
+			sc.matchers = sc.matchers[:2+rnd.Intn(4)]
+		}
+		lim := 1 + rnd.Intn(3)
+		seed := rnd.U64()
+		n := controlledAt(r, hx.NewRand(seed), sc, lim, false, -1)
+		for k := 0; k <= n && !r.Stop() && !tooManyHangs() && !tooManyStucks(); k++ {
+			controlledAt(r, hx.NewRand(seed), sc, lim, false, k)
+			swept++
+		}
+		se := enrichScenario(rnd, func(string) {})
+		if len(se.enrichers) > 5 {
+			se.enrichers = se.enrichers[:2+rnd.Intn(4)]
+		}
+		seed = rnd.U64()
+		n = controlledEnrichAt(r, hx.NewRand(seed), se, lim, false, -1)
+		for k := 0; k <= n && !r.Stop() && !tooManyHangs() && !tooManyStucks(); k++ {
+			controlledEnrichAt(r, hx.NewRand(seed), se, lim, false, k)
+			swept++
+		}
+	}
+	r.Notes["cancellation_sweep_runs"] = swept
+	// an enricher error / an empty answer at every position of the enricher list
+	nerrpos := cfg.N(25, 250)
+	for i := 0; i < nerrpos && !r.Stop() && !tooManyHangs() && !tooManyStucks(); i++ {
+		enricherFaultSweep(r, rnd)
+	}
 	if n := runtime.NumGoroutine(); n > startGoroutines+2 {
 		r.Fail("", fmt.Sprintf("goroutines-left-at-end-of-run before=%d after=%d", startGoroutines, n))
 	}
@@ -275,4 +324,39 @@ func replayNonFunctionalIds(r *hx.Run, rnd *hx.Rand) {
 		}
 	}
 	r.Notes["two_objects_one_id_outcomes"] = seen
+}
+
+// enricherFaultSweep: one scenario with 2..6 well-behaved enrichers; for every
+// position i a variant in which enricher i fails and one in which it answers
+// nothing, plus the variant in which all fail — each run freely (differential
+// + oracles) and under a controlled schedule of the enrichment phase.
+func enricherFaultSweep(r *hx.Run, rnd *hx.Rand) {
+	base := enrichScenario(rnd, func(string) {})
+	ne := 2 + rnd.Intn(5)
+	base.enrichers = nil
+	for i := 0; i < ne; i++ {
+		base.enrichers = append(base.enrichers, enricherS{kind: 1 + rnd.Intn(3), msgs: []int{1 + rnd.Intn(40), 50 + i}, sees: rnd.Chance(1, 2)})
+	}
+	variant := func(name string, mod func(es []enricherS)) {
+		if r.Stop() || tooManyHangs() || tooManyStucks() {
+			return
+		}
+		sc := *base
+		sc.enrichers = append([]enricherS(nil), base.enrichers...)
+		mod(sc.enrichers)
+		r.Count("enricher-fault-sweep:" + name)
+		runScenario(r, rnd, &sc, []int{1, 1 + rnd.Intn(8)}, "")
+		controlledEnrich(r, rnd, &sc, 1+rnd.Intn(3), false)
+	}
+	variant("none", func([]enricherS) {})
+	for i := 0; i < ne; i++ {
+		i := i
+		variant("error-at-position", func(es []enricherS) { es[i].fail = true })
+		variant("empty-at-position", func(es []enricherS) { es[i].msgs = nil })
+	}
+	variant("all-fail", func(es []enricherS) {
+		for i := range es {
+			es[i].fail = true
+		}
+	})
 }
